@@ -186,6 +186,26 @@ def x509Issue (sh : Shape) (L : Int) (req : Req) (t1 t2 iat : Int) : Option (Int
   | .issue d => some (x509Window t2 d)
   | _ => none
 
+/-! ### role-requesting certificates: which `Duration` the parameter parsers choose -/
+
+inductive RoleRes
+  | unset
+  | dur (d : Int)
+  | stuck
+deriving DecidableEq, Repr
+
+/-- one assignment; `D` is `maxRoleRequestingCertDuration`, `p` the lifetime
+(`NotAfter − NotBefore`, ns) of the certificate the request presents -/
+def roleAssign (D p : Int) (r : RoleRes) : RoleAssign → RoleRes
+  | .maxConst => match r with | .stuck => .stuck | _ => .dur D
+  | .presented => match r with | .stuck => .stuck | _ => .dur p
+  | .presentedIfPositive => match r with | .stuck => .stuck | _ => if p > 0 then .dur p else r
+  | .unknown => .stuck
+
+/-- the parser's assignments in source order -/
+def roleDuration (srcs : List RoleAssign) (D p : Int) : RoleRes :=
+  srcs.foldl (roleAssign D p) .unset
+
 /-! ### the property's predicates (what `judge` evaluates) -/
 
 def reqOK (req : Req) (ta vb : Int) : Bool :=
